@@ -74,9 +74,13 @@ class TreeGen:
             self.kinds.add("if")
             n = ("if", self.cond(vars_), self.stmts(depth + 1, vars_, in_for), [], None)
             elifs = []
-            if r.random() < 0.35:
-                self.kinds.add("elif")
-                elifs.append((self.cond(vars_), self.stmts(depth + 1, vars_, in_for)))
+            while r.random() < (0.4 if not elifs else 0.5) and len(elifs) < 3:
+                self.kinds.add("elif" if not elifs else "several-elifs")
+                c2 = self.cond(vars_)
+                if r.random() < 0.15:
+                    self.kinds.add("public-elif-condition")
+                    c2 = r.choice(["1", "0", "True"])
+                elifs.append((c2, self.stmts(depth + 1, vars_, in_for)))
             els = None
             if r.random() < 0.55:
                 self.kinds.add("else")
